@@ -94,6 +94,31 @@ pub fn gen_c12(thorough: bool, seed: u64) -> Vec<Episode> {
             }
             eps.push(ep(n, ops));
         }
+        // the canonical zero cube as an operand, against every cube (and itself, and the one cube)
+        {
+            let mut ops = vec![json!({"op": "t_mk", "k": "cube", "c": "zero", "d": 0}), json!({"op": "t_info", "a": 0})];
+            for (ib, &(pb, qb)) in cubes.iter().enumerate() {
+                ops.push(mk_cube(1, pb, qb));
+                for f in ["implies", "intersects", "eq"] {
+                    ops.push(json!({"op": "t_rel", "f": f, "a": 0, "b": 1}));
+                    ops.push(json!({"op": "t_rel", "f": f, "a": 1, "b": 0}));
+                }
+                ops.push(json!({"op": "t_bin", "g": "and", "f": FORMS[ib % 4], "a": 0, "b": 1, "d": 2}));
+                ops.push(json!({"op": "t_bin", "g": "and", "f": FORMS[(ib + 1) % 4], "a": 1, "b": 0, "d": 2}));
+                if ops.len() > 120 {
+                    eps.push(ep(n, ops));
+                    ops = vec![json!({"op": "t_mk", "k": "cube", "c": "zero", "d": 0})];
+                }
+            }
+            for f in ["implies", "intersects", "eq"] {
+                ops.push(json!({"op": "t_rel", "f": f, "a": 0, "b": 0}));
+            }
+            ops.push(json!({"op": "t_bin", "g": "and", "f": "ref_ref", "a": 0, "b": 0, "d": 2}));
+            for m in 0..(1usize << n).min(8) {
+                ops.push(json!({"op": "t_val", "a": 0, "mb": bits(m)}));
+            }
+            eps.push(ep(n, ops));
+        }
         // implies_lut against all functions (n <= 3; sampled at n = 4)
         if n <= 4 {
             let total: u64 = 1u64 << (1u64 << n);
@@ -521,6 +546,18 @@ pub fn gen_c15(thorough: bool, seed: u64) -> Vec<Episode> {
         tabs.push((0..dom(n)).collect());
         tabs.push(vec![]);
         tabs.push(vec![dom(n) - 1]);
+        // functions living in the low part of the table only (whole upper 64-bit blocks are zero),
+        // complemented top variables, and one-hot style tables
+        let low = random_on(n.min(6), &mut r);
+        tabs.push(low.clone());
+        tabs.push(on_from_fn(n, |m| (m >> (n - 1)) & 1 == 0));
+        tabs.push(on_from_fn(n, |m| (m >> (n - 1)) & 1 == 0 && m & 1 == 1));
+        tabs.push(vec![0]);
+        tabs.push(on_from_fn(n, |m| m.count_ones() == 1));
+        if n >= 8 {
+            let mid = random_on(7, &mut r);
+            tabs.push(on_from_fn(n, |m| m < 128 && mid.binary_search(&m).is_ok() || (m >> 7) == 2 && low.binary_search(&(m & 63)).is_ok()));
+        }
         for t in tabs {
             eps.push(ep(n, vec![json!({"op": "t_mk", "k": "esop", "c": "from_lut_ref", "d": 0, "n": n, "on": t}),
                                 json!({"op": "t_tolut", "a": 0, "f": "ref"}), json!({"op": "t_info", "a": 0})]));
